@@ -91,8 +91,10 @@ for name,pr in [("9fail-1rec",{"j":9,"r2":1}),("1rec-9fail",{"r1":1,"j":9}),("9f
         d=dict(pr); d["pattern"]=pat
         c08.append(job(f"mixed-{name}-{pn}",".","VH_ClientRetry",["C08/"],d,Q if pat==0 else T,bounds=f"unsolicited records (symbolic type/payload) and runs of <=9 transient failures ({pn}) before the ACK with symbolic errno: {name}"))
 c08.append(job("send-fails",".","VH_ClientSendFail",["C08/"],{},Q,expect=["C08/send-failed"],bounds="each of the 12 command methods with the 1st, 2nd or 3rd Send of the call failing (ENOBUFS, nothing reaches the kernel): an error is returned and no data"))
+c08.append(job("receive-fails-hard",".","VH_ClientSendFail",["C08/"],{"recvfail":1},Q,expect=["C08/receive-failed"],bounds="each of the 12 command methods with the 1st, 2nd or 3rd Receive failing with ENOBUFS/EBADF: an error is returned"))
 C["C08"]={"jobs":c08,"assumptions":CLIENT_ASSUME,"outside":["the real kernel and socket","more than 2 unsolicited records per wait","Receive returning several messages at once","rule payloads longer than 3-4 bytes (content is only copied)"]}
 C["C16"]={"jobs":[job("setters",".","VH_ClientSetters",["C16/"],{},Q,bounds="7 setters x both wait modes with full-range symbolic arguments (uint32/int32/bool/FailureMode), GetStatus request"),
+   job("setters-recv-error",".","VH_ClientSetters",["C16/"],{"recvfail":1},Q,bounds="as setters, with the 1st or 2nd Receive of the call failing with ENOBUFS/EBADF/ECONNREFUSED: still exactly one well-formed request"),
    job("constants",".","VH_Constants",["C16/"],{},Q,bounds="closed terms: exported constants against UAPI values (linux/audit.h)"),
    job("wire-0-64",".","VH_StatusWire",["C16/"],{"maxlen":64},Q,bounds="FromWireFormat: every buffer length 0..64 with symbolic contents, receiver pre-filled with symbolic garbage"),
    job("wire-100",".","VH_StatusWire",["C16/"],{"maxlen":0,"long":1},Q,bounds="FromWireFormat: buffer length 100")],
@@ -320,6 +322,7 @@ c09=[job("file-object","aucoalesce","VH_FileObject",["C09/"],{"nsys":3,"maxpaths
 C["C09"]={"jobs":c09,"assumptions":COAL_ASSUME+["any non-empty Warnings excuses a lost field (which wording 'names the problem' is not for the check to decide)","at most one EXECVE and one SOCKADDR record per group"],
   "outside":["groups with more than 4-5 records","the regex tokenizer (C05/C12)","ECS fields"]}
 c15=[job("repeatable","aucoalesce","VH_Repeatable",["C15/"],{},Q,bounds="four concrete groups (execve with PATH/CWD/EXECVE, failed connect with SOCKADDR/PROCTITLE, USER_LOGIN, AVC+SYSCALL) through the real Parse: Data/Tags snapshots before and after, second coalesce equal, earlier event unchanged by a later coalesce")]
+c15.append(job("broken-records","aucoalesce","VH_CoalesceBroken",["C15/"],{},Q,no_native=True,bounds="4 concrete groups with any one record (SYSCALL included) replaced by one whose Data() fails / that has no fields / with undecodable text, optionally a second failing record: event or error, no panic, second coalesce equal"))
 c15.append(job("table-isolation","aucoalesce","VH_TableIsolation",["C15/"],{},Q,bounds="for every record type of the normalisation table: {that record, SYSCALL} in both orders x 4 syscall pairs (open/creat/connect/execve/setuid): first event unchanged by the second coalesce, same text coalesces to the same event again, no store into any list of the shared tables (frozen up to capacity)"))
 c15.append(job("resolve-isolation-hardcoded","aucoalesce","VH_ResolveIsolation",["C15/"],{"mode":0},Q,bounds="uid and gid with the same numbers and different names hard-coded through HardcodeUsers/HardcodeGroups in either order, then ResolveIDs: every *uid gets the user name, every *gid the group name"))
 c15.append(job("resolve-isolation-caches","aucoalesce","VH_ResolveIsolation",["C15/"],{"mode":1},Q,no_native=True,bounds="explicit user/group caches against a stub database where uid 1000/33 and gid 1000/33 have different names; 4 lookup histories (incl. lookups in an unrelated pair of caches) before ResolveIDsFromCaches"))
@@ -349,7 +352,7 @@ for i,f in enumerate(RTF):
        bounds=f"syscall rule with one {f} filter (every admissible operator, 4 symbolic decimal digits / names / strings of 1..3 plain bytes) x action x {{no -S, -S open|execve|all, -S 0|59|1000|2047}} x 0..1 key"))
     c07.append(job("field10-"+f,"rule/flags","VH_RoundTrip",["C07/"],{"shape":0,"field":i,"list":lst,"digits":10,"smalldigits":4,"strmax":2,"maxkeys":1,"sysforms":3},T,expect=["C07/accepted-by-build"],
        bounds=f"as field-{f} with 10 symbolic digits"))
-for (a,b) in [("uid","arch"),("arch","uid"),("path","perm"),("perm","path"),("exe","msgtype")]:
+for (a,b) in [("uid","arch"),("arch","uid"),("path","perm"),("perm","path"),("dir","perm"),("exe","msgtype")]:
     if b=="msgtype": continue
     c07.append(job(f"two-{a}-{b}","rule/flags","VH_RoundTrip",["C07/"],{"shape":0,"field":RTF.index(a),"second":RTF.index(b),"list":0,"digits":3,"strmax":1,"maxkeys":1,"sysforms":2,"oneop":1,"realpath":1},Q,expect=["C07/accepted-by-build"],
        bounds=f"two filters in the order {a}, {b} (field order, watch-shaped rules)"))
